@@ -88,6 +88,62 @@ fn normalise(v: &Value) -> Option<Value> {
     }
 }
 
+/// exact decimal value of a JSON number text: (negative, significant digits, exponent of the last digit)
+fn exact_decimal(t: &str) -> Option<(bool, String, i64)> {
+    let t = t.trim();
+    let (neg, rest) = match t.strip_prefix('-') {
+        Some(r) => (true, r),
+        None => (false, t.strip_prefix('+').unwrap_or(t)),
+    };
+    let (mant, exp) = match rest.find(|c| c == 'e' || c == 'E') {
+        Some(i) => (&rest[..i], rest[i + 1..].parse::<i64>().ok()?),
+        None => (rest, 0i64),
+    };
+    let (int, frac) = match mant.find('.') {
+        Some(i) => (&mant[..i], &mant[i + 1..]),
+        None => (mant, ""),
+    };
+    if int.is_empty() && frac.is_empty() {
+        return None;
+    }
+    if !int.chars().all(|c| c.is_ascii_digit()) || !frac.chars().all(|c| c.is_ascii_digit()) {
+        return None;
+    }
+    let mut digits: String = format!("{}{}", int, frac);
+    let mut e = exp - frac.len() as i64;
+    while digits.len() > 1 && digits.ends_with('0') {
+        digits.pop();
+        e += 1;
+    }
+    let digits = digits.trim_start_matches('0').to_string();
+    if digits.is_empty() {
+        return Some((false, "0".into(), 0));
+    }
+    Some((neg, digits, e))
+}
+
+/// does `got` equal `doc` up to the documented normalisation (scalars become strings, nulls are
+/// dropped)? Numbers must keep their exact decimal value; their spelling may change (1.50 -> 1.5).
+fn same_document(doc: &Value, got: &Value) -> bool {
+    match (doc, got) {
+        (Value::Bool(b), Value::String(s)) => *s == b.to_string(),
+        (Value::Number(n), Value::String(s)) => {
+            let a = exact_decimal(&n.to_string());
+            a.is_some() && a == exact_decimal(s)
+        }
+        (Value::String(a), Value::String(b)) => a == b,
+        (Value::Array(a), Value::Array(b)) => {
+            let a: Vec<&Value> = a.iter().filter(|v| !v.is_null()).collect();
+            a.len() == b.len() && a.iter().zip(b.iter()).all(|(x, y)| same_document(x, y))
+        }
+        (Value::Object(a), Value::Object(b)) => {
+            let a: Vec<(&String, &Value)> = a.iter().filter(|(_, v)| !v.is_null()).collect();
+            a.len() == b.len() && a.iter().all(|(k, v)| b.get(*k).map(|w| same_document(v, w)).unwrap_or(false))
+        }
+        _ => false,
+    }
+}
+
 fn json_roundtrip(s: &mut Session, doc: &Value) -> Result<(), (String, String)> {
     let text = doc.to_string();
     let exp = normalise(doc);
@@ -102,7 +158,7 @@ fn json_roundtrip(s: &mut Session, doc: &Value) -> Result<(), (String, String)> 
         (Some(_), None) => Err(("json_parse:output-for-null".to_string(), format!("json_parse --collection {} gave {:?}", text, h))),
         (Some(h), Some(exp)) => match s.call("json_encode", &["--collection", h]) {
             Out::Val(Some(t2)) => match serde_json::from_str::<Value>(&t2) {
-                Ok(v2) if v2 == *exp => Ok(()),
+                Ok(v2) if same_document(doc, &v2) => Ok(()),
                 Ok(v2) => Err(("json-roundtrip:wrong-document".to_string(), format!("{} came back as {} (expected {})", text, v2, exp))),
                 Err(e) => Err(("json_encode:invalid-json".to_string(), format!("{} came back as unparsable {:?}: {}", text, t2, e))),
             },
@@ -183,6 +239,14 @@ const JKEYS: [&str; 4] = ["k", "a.b", "a b", "x[0]"];
 
 fn json_leaves() -> Vec<Value> {
     vec![json!("a"), json!("a.b"), json!(""), json!(1), json!(1.5), json!(true), Value::Null]
+}
+
+/// number leaves at the edges of the integer and floating point ranges (used at depth <= 1)
+fn json_number_leaves() -> Vec<Value> {
+    ["0", "-1", "1.0", "-0.0", "0.1", "1e100", "1E-7", "2.50", "18446744073709551615", "9223372036854775808", "-9223372036854775808", "123456789012345678", "1.7976931348623157e308", "5e-324"]
+        .iter()
+        .map(|t| serde_json::from_str::<Value>(t).expect("number"))
+        .collect()
 }
 
 /// every container of width <= 2 over `elems` (arrays: ordered pairs; objects: 1 or 2 distinct keys)
@@ -316,6 +380,13 @@ pub fn worker(w: &mut Worker) {
             run!(json!({"kind": "json", "doc": d.to_string()}), nt, ("json", shape_of(&d).len().min(12), d.is_array()), json_roundtrip(&mut s, &d));
         };
         for_each_doc(depth, reduced, &mut body);
+        // number leaves: alone, in an array, as an object member
+        let nums = json_number_leaves();
+        for n in &nums {
+            body(n.clone());
+            body(json!([n, "x", n]));
+            body(json!({"k": n, "a.b": [n]}));
+        }
     }
     // properties
     let vl = tier.pick(2usize, 3usize);
@@ -382,7 +453,7 @@ pub fn crash_sig(_case: &Value, kind: &str) -> String {
     kind.to_string()
 }
 
-pub const RULE: &str = "texts: every string up to the length bound over {a e-acute emoji NUL LF SP =} through string_to_bytes/bytes_to_string and base64_encode/base64_decode (bytes compared in the handle table as well); integers: every n in 0..=bound plus 2^k-1,2^k,2^k+1 for k<=64 through hex_encode/hex_decode; JSON: every document of the stated depth with width<=2 over leaves {\"a\",\"a.b\",\"\",1,1.5,true,null} and keys {k,a.b,'a b',x[0]} (depth 3 over a covering subset of depth-2 shapes) through json_parse --collection / json_encode --collection compared (as JSON values) with the documented normalisation, then release -r must free every handle; properties: every 1-entry map with key length 1..2 and value length 0..bound over {a SP = : # ! \\\\ e-acute LF}, every 2-entry map over length-1 keys/values plus a few non-BMP entries, through map_to_properties/map_load_properties. Non-trivial: non-ASCII or NUL text, n>255, container documents, every properties case. states = distinct (kind, size class) outcomes; transitions = round trips executed";
+pub const RULE: &str = "texts: every string up to the length bound over {a e-acute emoji NUL LF SP =} through string_to_bytes/bytes_to_string and base64_encode/base64_decode (bytes compared in the handle table as well); integers: every n in 0..=bound plus 2^k-1,2^k,2^k+1 for k<=64 through hex_encode/hex_decode; JSON: every document of the stated depth with width<=2 over leaves {\"a\",\"a.b\",\"\",1,1.5,true,null} plus 14 number leaves at the edges of the i64/u64/f64 ranges (numbers must keep their exact decimal value) and keys {k,a.b,'a b',x[0]} (depth 3 over a covering subset of depth-2 shapes) through json_parse --collection / json_encode --collection compared (as JSON values) with the documented normalisation, then release -r must free every handle; properties: every 1-entry map with key length 1..2 and value length 0..bound over {a SP = : # ! \\\\ e-acute LF}, every 2-entry map over length-1 keys/values plus a few non-BMP entries, through map_to_properties/map_load_properties. Non-trivial: non-ASCII or NUL text, n>255, container documents, every properties case. states = distinct (kind, size class) outcomes; transitions = round trips executed";
 pub const ASSUMPTIONS: &[&str] = &["values are handed to the commands as already-bound arguments (no '$' or '%' in the alphabets)", "JSON equality is serde_json value equality (object key order is not significant)"];
 pub const EXHAUSTIVE: bool = true;
 pub const WALL_CAP_S: (u64, u64) = (50, 1500);
